@@ -1,4 +1,4 @@
-CONSTANTS Ids = {1, 2, 3}  MaxOps = 3  WithTxn = FALSE  WithReopen = TRUE
+CONSTANTS Ids = {1, 2, 3}  MaxOps = 3  WithTxn = FALSE  WithReopen = TRUE  Configs = {}
 CONSTANTS AVals <- MCAVals  BVals <- MCBVals
 SPECIFICATION Spec
 VIEW view
